@@ -5,9 +5,5 @@
 (declare-fun build (V V) V)
 ; Draft-6 6.17 required: every listed name is a key of the instance  (recursion over the list)
 (define-fun all_present ((req V) (v V)) Bool (not (some_missing (seqof req) v 0)))
-; deep bool aliasing: what replace_bool must compute so that == coincides with Draft-6 equality
-(declare-fun rbd (V) V)
-(declare-fun S_TRUE () V)
-(declare-fun S_FALSE () V)
 ; Properties.__contains__: the key is covered by a declared property, a pattern, or a non-Nothing additional
 (declare-fun props_accepts (V String) Bool)
